@@ -669,10 +669,13 @@ Section OnceProofs.
     all: try (exfalso; apply Hx; auto).
   Qed.
 
-  (* finished runs: if anybody called Do at all, exactly one function was started *)
+  (* finished runs: if anybody called Do at all, exactly one function was started, and it completed
+     exactly once unless it aborted *)
   Theorem finished_exactly_one progs s :
     let c := run (init progs) s in
-    finished c -> (exists t f, In (EInv t f) (c_trace c)) -> length (starts (c_trace c)) = 1.
+    finished c -> (exists t f, In (EInv t f) (c_trace c)) ->
+    length (starts (c_trace c)) = 1 /\
+    exists w f, starts (c_trace c) = [(w, f)] /\ fins (c_trace c) = (if f_aborts f then [] else [(w, f_res f)]).
   Proof.
     intros c Hfin (t0 & f0 & Hinv). pose proof (reach_inv progs s) as HI. fold c in HI.
     destruct (c_once c) eqn:Ho.
@@ -681,6 +684,74 @@ Section OnceProofs.
       destruct (Hfin _ _ Hn) as [A|(A & _)]; congruence.
     - exfalso. destruct HI as [_ _ HTr]. rewrite Ho in HTr. destruct HTr as (_ & f & th & _ & Hn & Hpc).
       destruct (Hfin _ _ Hn) as [A|(A & _)]; rewrite A in Hpc; exact Hpc.
-    - destruct (inv_done _ HI Ho) as (w & f & -> & _). reflexivity.
+    - destruct (inv_done _ HI Ho) as (w & f & H1 & H2 & _). rewrite H1. split; [reflexivity|]. exists w, f. auto.
+  Qed.
+
+  (* ---- termination: every step decreases a measure, so every run can be completed ---- *)
+
+  Definition pc_cost (p : pc V) : nat :=
+    match p with
+    | PIdle => 0
+    | PEnter f => f_steps f + 2 * arity + 5
+    | PRun _ k => k + 2 * arity + 4
+    | PWrite _ i => (arity - i) + arity + 3
+    | PRead acc => (arity - length acc) + 1
+    | PDead => 0
+    end.
+
+  Definition thread_cost (th : thread V) : nat :=
+    match th_pc th with
+    | PDead => 0
+    | p => pc_cost p + fold_right (fun f acc => f_steps f + 2 * arity + 6 + acc) 0 (th_prog th)
+    end.
+
+  Definition cost (c : config V) : nat := fold_right (fun th acc => thread_cost th + acc) 0 (c_threads c).
+
+  Lemma cost_set (ths : list (thread V)) t th th' :
+    nth_error ths t = Some th -> thread_cost th' < thread_cost th ->
+    fold_right (fun th acc => thread_cost th + acc) 0 (set_thread ths t th') <
+    fold_right (fun th acc => thread_cost th + acc) 0 ths.
+  Proof.
+    revert t; induction ths as [|x r IH]; intros [|t] H L; simpl in *; try discriminate.
+    - injection H as ->. lia.
+    - specialize (IH _ H L). lia.
+  Qed.
+
+  Theorem step_decreases c t c' : step c t = Some c' -> cost c' < cost c.
+  Proof.
+    unfold Once.step. destruct (nth_error (c_threads c) t) as [th|] eqn:Hth; [|discriminate].
+    destruct th as [prog p rets]; simpl.
+    destruct p as [|f|f [|k]|res i|acc|].
+    - destruct prog as [|f rest]; [discriminate|]. intros [= <-]. unfold cost; simpl.
+      eapply cost_set; eauto; unfold thread_cost; simpl; lia.
+    - destruct (c_once c); [|discriminate|]; intros [= <-]; unfold cost; simpl;
+        eapply cost_set; eauto; unfold thread_cost; simpl; lia.
+    - destruct (f_aborts f); intros [= <-]; unfold cost; simpl;
+        eapply cost_set; eauto; unfold thread_cost; simpl; lia.
+    - intros [= <-]. unfold cost; simpl. eapply cost_set; eauto; unfold thread_cost; simpl; lia.
+    - destruct (i <? arity) eqn:L; intros [= <-]; unfold cost; simpl;
+        eapply cost_set; eauto; unfold thread_cost; simpl; [apply Nat.ltb_lt in L|]; lia.
+    - destruct (length acc <? arity) eqn:L; intros [= <-]; unfold cost; simpl;
+        eapply cost_set; eauto; unfold thread_cost; simpl.
+      + apply Nat.ltb_lt in L. rewrite app_length. simpl. lia.
+      + lia.
+    - discriminate.
+  Qed.
+
+  Lemma run_app s1 s2 : forall c : config V, run c (s1 ++ s2) = run (run c s1) s2.
+  Proof. induction s1 as [|t s1 IH]; intro c; simpl; auto. Qed.
+
+  (* every run can be extended to a finished one (in at most [cost] further steps) *)
+  Theorem can_finish progs s : exists s2, finished (run (init progs) (s ++ s2)).
+  Proof.
+    remember (cost (run (init progs) s)) as n eqn:En. revert s En.
+    induction n as [n IH] using lt_wf_ind. intros s En.
+    destruct (no_deadlock progs s) as [F|(t & c' & Hs)].
+    - exists []. rewrite app_nil_r. exact F.
+    - pose proof (step_decreases _ _ _ Hs) as Hlt.
+      assert (E : run (init progs) (s ++ [t]) = c').
+      { rewrite run_app. simpl. rewrite Hs. reflexivity. }
+      destruct (IH (cost c') ltac:(lia) (s ++ [t]) ltac:(rewrite E; reflexivity)) as (s2 & F).
+      exists (t :: s2). rewrite <- app_assoc in F. exact F.
   Qed.
 End OnceProofs.
